@@ -159,6 +159,10 @@ func genFunction(ld *Loader, specs *Specs, fn *ssa.Function, ct *Contract, opts 
 		e.oblige(&Obl{Name: tr.label + "#vacuity:return-reachable", Kind: "vacuity", Cond: or(rcs...), Goal: tTrue, Vac: true, Fn: tr.label, Props: tr.propsOf()})
 	}
 	if ct != nil {
+		for _, nc := range ct.NoCalls {
+			// always present (so the baseline tracks it); the per-call-site obligations above carry the failures
+			e.oblige(&Obl{Name: fmt.Sprintf("%s#nocall:%s", tr.label, nc.Label), Kind: "nocall", Props: nc.Props, Cond: tTrue, Goal: tTrue, Pos: nc.Where, Fn: tr.label})
+		}
 		// an in-body assert that matches no call site asserts nothing: that is a broken contract, not a pass
 		for _, as := range ct.Asserts {
 			if !g.assertHit[as] {
